@@ -21,6 +21,9 @@ class _Ctx:
         self.mode = "float"
         self._delta = 0.0
 
+    def set_dps(self, n):
+        self.mp.dps = n
+
     def use_mp(self, delta=0.0, seed=0):
         """delta > 0: every literal is multiplied by (1 + delta*u), u uniform in [-1, 1] per occurrence."""
         self.mode = "mp"
